@@ -66,6 +66,9 @@ type subject struct {
 	// RefModel: when non-nil, the graph the reference evaluates instead of Model (the same nodes in an order the
 	// sequential reference evaluator can follow)
 	RefModel []byte
+	// AlwaysRefused: a request no implementation can honour (the reference refuses it too): it is only there for what
+	// the failing call leaves behind; should it be computed, the outputs are not compared
+	AlwaysRefused bool
 }
 
 // otherWeights returns the model with every float32 initializer replaced by v*0.5+0.25 (nil if there is none).
@@ -505,10 +508,10 @@ func (s *subject) runHistory(seq []int) (v *hx.Violation, states map[uint64]bool
 		where := fmt.Sprintf("step %d (%s) of %v", step, histOpName(op), seqNames(seq))
 		if unjudged {
 		} else if wantErr {
-			if rerr == nil {
+			if rerr == nil && !s.MayRefuse {
 				return mk("not-refused", where+": failing call succeeded"), states, transitions
 			}
-			if outs != nil {
+			if outs != nil && rerr != nil {
 				return mk("outputs-with-error", where+": outputs returned with an error"), states, transitions
 			}
 		} else {
@@ -522,15 +525,17 @@ func (s *subject) runHistory(seq []int) (v *hx.Violation, states map[uint64]bool
 					outcomeOK[label] = rerr == nil
 				}
 				if rerr != nil {
-					lastOuts = nil
-					continue
+					lastOuts = nil // nothing to compare; what the refused call left behind is judged below like after every operation
 				}
 			}
-			if rerr != nil {
+			if rerr != nil && !s.MayRefuse {
 				return mk("history-dependent", fmt.Sprintf("%s: Run failed: %v (a freshly loaded model computes it)", where, rerr)), states, transitions
 			}
 			var got []*ref.T
 			for _, o := range s.Outs {
+				if rerr != nil {
+					break
+				}
 				t, ok := outs[o]
 				if !ok || t == nil {
 					return mk("nil-output", fmt.Sprintf("%s: output %q missing or nil", where, o)), states, transitions
@@ -544,7 +549,7 @@ func (s *subject) runHistory(seq []int) (v *hx.Violation, states map[uint64]bool
 					return mk("history-dependent", fmt.Sprintf("%s: output %q differs from the reference value for these inputs: %s", where, o, d)), states, transitions
 				}
 			}
-			if label != "" {
+			if label != "" && rerr == nil {
 				if fb, ok := firstBits[label]; ok {
 					for i := range got {
 						if k, d := hx.CompareT(got[i], fb[i], hx.Bits); k != "" {
@@ -555,7 +560,9 @@ func (s *subject) runHistory(seq []int) (v *hx.Violation, states map[uint64]bool
 					firstBits[label] = got
 				}
 			}
-			lastOuts, lastExp, lastFeed, lastEFeed = outs, exp, feed, curEFeed
+			if rerr == nil {
+				lastOuts, lastExp, lastFeed, lastEFeed = outs, exp, feed, curEFeed
+			}
 		}
 		now, d := snapAll()
 		states[d] = true
@@ -614,6 +621,10 @@ func newSubject(name string, model []byte, feedA map[string]*ref.T, outs []strin
 
 func (s *subject) prepare() error {
 	var err error
+	if s.AlwaysRefused {
+		s.expA, s.expB = map[string]*ref.T{}, map[string]*ref.T{}
+		return nil
+	}
 	rm := s.Model
 	if s.RefModel != nil {
 		rm = s.RefModel
@@ -843,6 +854,9 @@ func checkC02(c *hx.Checker) {
 		}
 		all := seqs(alpha, 1, d-1)
 		all = append(all, seqs(core, d, d)...)
+		if strings.Contains(s.Name, "[large") {
+			all = seqs(alpha, 1, d) // few levels: no operation is left out at the last one
+		}
 		for _, sq := range all {
 			seq := make([]int, len(sq))
 			for i, x := range sq {
